@@ -458,6 +458,14 @@ def fam_path_noslash(seed):
             if have_local:
                 sc["expexe"] = hx(os.path.join(cwd, "tool2"))
             out.append(sc)
+        # relative PATH entries are relative to the CHILD's working directory (the lookup happens after chdir)
+        if have_local:
+            for pv, exp in (("sub", os.path.join(cwd, "sub", "tool")), ("nowhere:sub", os.path.join(cwd, "sub", "tool")),
+                            (".", None)):
+                cmd = "tool" if exp else "tool2"
+                out.append({"id": "ns%d-rel-%s" % (i, pv.replace(":", "_").replace(".", "dot")), "class": "path-slash",
+                            "argv": [hx(cmd), hx("x")], "cwd": hx(cwd), "path": hx(pv), "expect_start": True,
+                            "expexe": hx(exp or os.path.join(cwd, "tool2"))})
         # the program actually started is the `executable` override: IT decides whether PATH is searched, not argv[0]
         if have_local and have_decoy:
             out.append({"id": "ns%d-exe-slash" % i, "class": "path-slash", "argv": [hx("tool2"), hx("x")], "exe": hx("sub/tool"),
